@@ -3,7 +3,7 @@
 checks via overlays.  modes: aug (x += e -> x = x + e for plain names), ret (return E -> tmp = E; return tmp for non-trivial E),
 pass (insert a no-op statement after every simple statement), mirror (a < b -> b > a, a == b -> b == a, ... for single
 comparisons of side-effect-free operands), demorgan (if a and b -> if not (not a or not b), if a or b -> if not (not a and not b)), kw2pos (calls of package functions /
-methods with a package-wide unique name whose arguments are all given by keyword, in parameter order: keywords dropped), pos2kw (the reverse: positional arguments of such calls named).   usage: python3-vt tools/robust_misc.py <mode> [PROP ...]"""
+methods with a package-wide unique name whose arguments are all given by keyword, in parameter order: keywords dropped), pos2kw (the reverse: positional arguments of such calls named), tmpcond (if COND: -> c = COND; if c:).   usage: python3-vt tools/robust_misc.py <mode> [PROP ...]"""
 import ast, os, sys, json
 sys.path.insert(0, os.path.dirname(os.path.dirname(os.path.abspath(__file__))))
 from kdverif.__main__ import run_check
@@ -70,6 +70,13 @@ class T(ast.NodeTransformer):
                 T.n += 1
                 out.append(ast.copy_location(ast.Assign(targets=[ast.Name("ret_value_", ast.Store())], value=st.value), st))
                 out.append(ast.copy_location(ast.Return(ast.Name("ret_value_", ast.Load())), st))
+            elif mode == "tmpcond" and isinstance(st, ast.If) and not isinstance(st.test, (ast.Name, ast.Constant)) and \
+                    not any(isinstance(y, (ast.NamedExpr, ast.Yield, ast.YieldFrom, ast.Await)) for y in ast.walk(st.test)):
+                T.n += 1
+                nm = f"cond_{T.n}_"
+                out.append(ast.copy_location(ast.Assign(targets=[ast.Name(nm, ast.Store())], value=st.test), st))
+                st.test = ast.copy_location(ast.Name(nm, ast.Load()), st.test)
+                out.append(st)
             elif mode == "pass" and isinstance(st, (ast.Assign, ast.AugAssign, ast.Expr)):
                 out.append(st)
                 T.n += 1
